@@ -103,7 +103,8 @@ Touch(S, f) == [S EXCEPT !.heap = HeapWithout(@, f) \cup {<<S.clk, f>>}, !.clk =
 \* names a file that has no entry (self.file_futures[oldest_file] raises KeyError)
 RECURSIVE Recover(_, _, _)
 Recover(S, claim, aside) ==
-  IF S.mem + claim > MaxMem /\ S.heap # {}
+  IF claim > MaxMem THEN <<S, FALSE, "ok">>        \* processed contents larger than the limit: not cacheable
+  ELSE IF S.mem + claim > MaxMem /\ S.heap # {}
   THEN LET e == Oldest(S.heap)
            S1 == [S EXCEPT !.heap = @ \ {e}]
        IN  IF ~S.ff[e[2]].present THEN <<S1, FALSE, "keyerror">>
@@ -121,7 +122,7 @@ UFM(S, f, usage) ==
        THEN LET T == Touch(r[1], f)
             IN  <<[T EXCEPT !.mem = @ + usage, !.ff[f] = [present |-> TRUE, w |-> FALSE, bytes |-> usage,
                                                          fut |-> r[1].ff[f].fut]], "ok">>
-       ELSE <<[r[1] EXCEPT !.ff[f] = NoEntry], "ok">>
+       ELSE <<[r[1] EXCEPT !.ff[f] = NoEntry, !.heap = HeapWithout(@, f)], "ok">>   \* no entry and no LRU record
 
 St == [ff |-> ff, heap |-> heap, mem |-> mem, clk |-> clk]
 SetSt(S) == ff' = S.ff /\ heap' = S.heap /\ mem' = S.mem /\ clk' = S.clk
